@@ -17,3 +17,6 @@ func opts() treekit.Options { return treekit.Options{MaxCount: vk.Size(2000, 500
 func TestTreeModel(t *testing.T) {
 	vk.Run(t, suite, "treeplan", 2500, treekit.GenPlan(opts()), treekit.RunPlan(opts()))
 }
+
+// FuzzTreeModel: native coverage-guided fuzzing of the same property (thorough tier only).
+func FuzzTreeModel(f *testing.F) { vk.Fuzz(f, suite, "treeplan", treekit.GenPlan(opts()), treekit.RunPlan(opts())) }
